@@ -134,6 +134,17 @@ func entryPoints() []entryPoint {
 		{name: "MoveWithContext(rename)", method: "MoveWithContext", mutating: true, call: func(ctx context.Context, e *env) error {
 			return e.vfs.MoveWithContext(ctx, e.p("src"), e.p("dst/moved"))
 		}},
+		// a file moved INTO a directory which does not exist yet (destination written with a trailing separator), and moves
+		// which are refused or trivial: the destination is resolved, and possibly created, before anything is moved
+		{name: "MoveWithContext(file-into-missing-dir/)", method: "MoveWithContext", mutating: true, call: func(ctx context.Context, e *env) error {
+			return e.vfs.MoveWithContext(ctx, e.p("big.bin"), e.p("dst/not-there-yet")+string(filepath.Separator))
+		}},
+		{name: "MoveWithContext(missing-source)", method: "MoveWithContext", mutating: true, call: func(ctx context.Context, e *env) error {
+			return e.vfs.MoveWithContext(ctx, e.p("no-such-entry"), e.p("dst/x"))
+		}},
+		{name: "MoveWithContext(onto-itself)", method: "MoveWithContext", mutating: true, call: func(ctx context.Context, e *env) error {
+			return e.vfs.MoveWithContext(ctx, e.p("big.bin"), e.p("big.bin"))
+		}},
 		{name: "RemoveWithContext", method: "RemoveWithContext", mutating: true, call: func(ctx context.Context, e *env) error { return e.vfs.RemoveWithContext(ctx, e.p("src")) }},
 		{name: "RemoveWithContextAndExclusionPatterns", method: "RemoveWithContextAndExclusionPatterns", mutating: true, call: func(ctx context.Context, e *env) error {
 			return e.vfs.RemoveWithContextAndExclusionPatterns(ctx, e.p("src"), "^never-matches-zzz$")
